@@ -1,6 +1,7 @@
 package ackhandler
 
 import (
+	"encoding/json"
 	"fmt"
 	"testing"
 	"time"
@@ -9,8 +10,20 @@ import (
 	"github.com/refraction-networking/uquic/internal/verifmc/explore"
 )
 
+// c20Slice: see the cc target (per-part share of the process deadline; safety net only).
+func c20Slice(e explore.Env) explore.Env {
+	s := 40 * time.Second
+	if e.Thorough() {
+		s = 170 * time.Second
+	}
+	if d := time.Now().Add(s); e.Deadline.IsZero() || d.Before(e.Deadline) {
+		e.Deadline = d
+	}
+	return e
+}
+
 func c20SphPart(name string, mk func(thorough bool) *c20SphCfg) explore.Part {
-	return explore.BFSPart(name, func(e explore.Env) explore.BFSSpec {
+	spec := func(e explore.Env) explore.BFSSpec {
 		cfg := mk(e.Thorough())
 		cc := "production constructor (Reno, 32 packets)"
 		if cfg.initPkts > 0 {
@@ -20,10 +33,15 @@ func c20SphPart(name string, mk func(thorough bool) *c20SphCfg) explore.Part {
 			New:              func() explore.Instance { return newC20SphInst(cfg) },
 			MaxDepth:         cfg.depth,
 			PanicIsViolation: true,
-			Rule: fmt.Sprintf("BFS depth %d over the real sentPacketHandler (1-RTT space, handshake confirmed, sequential packet numbers) + %s; obedient sender: send sizes %v (0 full,1 100 bytes) only on SendAny, flood=%v, pure ACKs <=%d, PTO probes %v, ack %v (0 oldest,1 newest,2 all), loss-detection timeout at the alarm, pacer deadline, clock steps %v, MTU +80 x<=%d; state = canon(handler incl. congestion controller) + in-flight ledger",
+			Rule: fmt.Sprintf("BFS depth %d over the real sentPacketHandler (1-RTT space, handshake confirmed, sequential packet numbers) + %s; obedient sender: send sizes %v (0 full,1 100 bytes) only on SendAny, flood=%v, pure ACKs <=%d, PTO probes %v, ack %v (0 oldest,1 newest,2 all; only packets younger than 60 s), loss-detection timeout at the alarm, pacer deadline, clock steps %v, MTU +80 x<=%d; state = canon(handler incl. congestion controller) + in-flight ledger",
 				cfg.depth, cc, cfg.sizes, cfg.flood, cfg.maxAcks, cfg.probes, cfg.acks, cfg.steps, cfg.maxMTU),
 		}
-	})
+	}
+	return explore.Part{
+		Name:   name,
+		Run:    func(e explore.Env) *explore.Report { return explore.BFS(c20Slice(e), spec(e)) },
+		Replay: func(e explore.Env, raw json.RawMessage) *explore.Violation { return explore.ReplayBFS(spec(e), raw) },
+	}
 }
 
 func c20SphCfgOf(reno bool, initPkts int, dq, dt int) func(bool) *c20SphCfg {
@@ -38,8 +56,9 @@ func c20SphCfgOf(reno bool, initPkts int, dq, dt int) func(bool) *c20SphCfg {
 		}
 		if th {
 			c.depth = dt
-			c.acks = []int{0, 1, 2}
-			c.maxMTU = 2
+			if initPkts != 4 || !reno {
+				c.acks = []int{0, 1, 2}
+			}
 		}
 		return c
 	}
@@ -47,8 +66,8 @@ func c20SphCfgOf(reno bool, initPkts int, dq, dt int) func(bool) *c20SphCfg {
 
 func TestVerifC20Sph(t *testing.T) {
 	explore.Main("C20", []explore.Part{
-		c20SphPart("gate-reno", c20SphCfgOf(true, 4, 7, 9)),
-		c20SphPart("gate-cubic", c20SphCfgOf(false, 4, 6, 8)),
+		c20SphPart("gate-reno", c20SphCfgOf(true, 4, 7, 8)),
+		c20SphPart("gate-cubic", c20SphCfgOf(false, 4, 6, 7)),
 		c20SphPart("gate-production", c20SphCfgOf(true, 0, 6, 7)),
 	}, func(msg string) { t.Fatal(msg) })
 }
